@@ -519,6 +519,8 @@ class Builder:
             mn = self.pick(['beq', 'bne']) if comp else self.pick(sorted(rvref.BRANCHES))
             rs1 = self.reg(pool=[7, 8, 15, 16]) if comp else self.reg()
             rs2 = self.reg(0) if comp else self.reg()
+            if comp and self.chance(0.25):
+                rs1, rs2 = rs2, rs1     # near miss: x0 FIRST - beq x0, x9, L has no c.beqz form
             return ir.Insn(mn, {'rs1': rs1, 'rs2': rs2, 'imm': ir.Off(L, bare=True)})
         name = self.pick(['beqz', 'bnez'] if comp else ['beqz', 'bnez', 'blez', 'bgez', 'bltz', 'bgtz', 'bgt', 'ble', 'bgtu', 'bleu'])
         if name in ('bgt', 'ble', 'bgtu', 'bleu'):
